@@ -237,6 +237,43 @@ fn check_typed<T: Serialize + DeserializeOwned>(reg: &Registry, c: &Case) -> Res
     Ok(())
 }
 
+/// C11's equality clause for the protocol types: decode two schema-valid values into the Rust type
+/// and report (a == b, b == a, same bytes). Ok(None) = one of them is not accepted by the core
+/// (C10's business).
+pub fn eq_vs_bytes(container: &str, v1: &V, v2: &V) -> Result<Option<(bool, bool, bool)>, String> {
+    fn go<T: DeserializeOwned + PartialEq>(reg: &Registry, name: &str, v1: &V, v2: &V) -> Result<Option<(bool, bool, bool)>, String> {
+        let (mut b1, mut b2) = (vec![], vec![]);
+        enc_c(reg, name, v1, &mut b1)?;
+        enc_c(reg, name, v2, &mut b2)?;
+        let (Ok(a), Ok(b)) = (opts().deserialize::<T>(&b1), opts().deserialize::<T>(&b2)) else { return Ok(None) };
+        Ok(Some((a == b, b == a, b1 == b2)))
+    }
+    let reg = thread_registry();
+    match container {
+        "HttpRequest" => go::<crux_http::protocol::HttpRequest>(&reg, container, v1, v2),
+        "HttpResponse" => go::<crux_http::protocol::HttpResponse>(&reg, container, v1, v2),
+        "HttpResult" => go::<crux_http::protocol::HttpResult>(&reg, container, v1, v2),
+        "HttpError" => go::<crux_http::HttpError>(&reg, container, v1, v2),
+        "HttpHeader" => go::<crux_http::protocol::HttpHeader>(&reg, container, v1, v2),
+        "KeyValueOperation" => go::<crux_kv::KeyValueOperation>(&reg, container, v1, v2),
+        "KeyValueResult" => go::<crux_kv::KeyValueResult>(&reg, container, v1, v2),
+        "KeyValueResponse" => go::<crux_kv::KeyValueResponse>(&reg, container, v1, v2),
+        "KeyValueError" => go::<crux_kv::error::KeyValueError>(&reg, container, v1, v2),
+        "Value" => go::<crux_kv::value::Value>(&reg, container, v1, v2),
+        "TimeRequest" => go::<crux_time::TimeRequest>(&reg, container, v1, v2),
+        "TimeResponse" => go::<crux_time::TimeResponse>(&reg, container, v1, v2),
+        "Instant" => go::<crux_time::Instant>(&reg, container, v1, v2),
+        "Duration" => go::<crux_time::Duration>(&reg, container, v1, v2),
+        "PlatformResponse" => go::<crux_platform::PlatformResponse>(&reg, container, v1, v2),
+        "RenderOperation" => go::<crux_core::render::RenderOperation>(&reg, container, v1, v2),
+        _ => Ok(None),
+    }
+}
+pub const EQ_CONTAINERS: &[&str] = &["HttpRequest", "HttpResponse", "HttpResult", "HttpError", "HttpHeader", "KeyValueOperation", "KeyValueResult", "KeyValueResponse", "KeyValueError", "Value", "TimeRequest", "TimeResponse", "Instant", "Duration", "PlatformResponse", "RenderOperation"];
+pub fn value_strategy(container: &'static str) -> BoxedStrategy<V> {
+    wire::gen::container(&thread_registry(), container, 0)
+}
+
 fn checkers() -> BTreeMap<&'static str, Checker> {
     let mut m: BTreeMap<&'static str, Checker> = BTreeMap::new();
     macro_rules! t {
